@@ -63,6 +63,10 @@ def _compare(drv, obj, model, qs, hist, viol, tag):
     h0 = _cache_hits(cls)
     got = [outcome(drv.call, obj, q) for q in qs]
     hits = _cache_hits(cls) - h0
+    # the memo of a method is shared by all instances of a class: empty it
+    # before the twin is evaluated, so that the twin can never be served an
+    # entry that belongs to the object
+    drv.clear_caches(obj)
     try:
         twin = drv.construct(model)
     except Exception as ex:   # noqa
